@@ -1,17 +1,236 @@
+/- Props/C06.lean — C06: polynomial algebra is exact and independent of thread scheduling.
+
+Model: `Core/C06.lean` (tied to /repo by `Gen/C06.lean` + the table stream + the exact kernel correspondence, see
+harness/props/c06.py).  Semantics: a coefficient block `p` of degree `d` stands for the Mathlib polynomial
+`toMv clmo d p = Σ_i p[i] · X^(decode i d) : MvPolynomial (Fin 6) K`.  All theorems hold for every commutative
+(semi)ring / field `K`, every table degree `D ≤ 63`, every block, and every schedule of the `prange` loops
+(`sched : List (List Nat)`, thread `t` executes the outer iterations `sched[t]` in that order; valid iff every
+iteration is executed exactly once: `sched.flatten.Perm (List.range n)`). -/
 import HitenModel.Lemmas.C06Poly
 import HitenModel.Gen.C06
+
+set_option linter.unusedSectionVars false
+
+open MvPolynomial
 namespace HitenModel.C06
 open HitenModel.Gen.C06
+
+/-! ## 0. the model's tables are the live tables of the imported package (regenerated every run) -/
 
 /-- the live `_PSI_GLOBAL` is the model's `psi` (all 7 × 31 entries) -/
 theorem gen_psi_is_model : psiReal = (List.range 7).map fun i => (List.range 31).map (psi i) := by decide +kernel
 
-/-- the live `_CLMO_GLOBAL[0..6]` is the model's table -/
+/-- the live `_CLMO_GLOBAL[0..6]` is the model's table (the whole table, degree ≤ 30, is compared by the driver) -/
 theorem gen_clmo_is_model : clmoReal = mkTables 6 := by decide +kernel
 
-/-- the live encode dicts (degree 0..6), read as key-by-slot, are the model's table: the dict is the inverse of clmo -/
+/-- the live encode dicts (degree 0..6), inverted to key-by-slot, are the model's table: each dict is the inverse of clmo -/
 theorem gen_encode_is_model : encKeysReal = mkTables 6 := by decide +kernel
 
 theorem gen_constants : nVars = 6 ∧ fastmath = false ∧ tableDegree = 30 ∧ psiShape = (7, 31) := by decide
+
+/-! ## 1. every monomial has exactly one slot -/
+
+/-- **table bijection**: for every degree `d` the nested loops of `_init_index_tables` list every multi-index of total
+degree `d` in 6 variables exactly once; there are `C(d+5,5) = psi[6,d]` of them, and for `d ≤ 63` the packed table
+`clmo[d]` has no repeated entry. -/
+theorem table_bijection (d : Nat) :
+    (∀ k : List Nat, k ∈ enum 6 d ↔ (k.length = 6 ∧ k.sum = d)) ∧ (enum 6 d).Nodup ∧
+    (enum 6 d).length = Nat.choose (d + 5) 5 ∧ psi 6 d = (clmoModel d).length ∧ psi 6 d = Nat.choose (d + 5) 5 ∧
+    (d ≤ 63 → (clmoModel d).Nodup) :=
+  ⟨mem_enum 6 d, nodup_enum 6 d, length_enum 5 d, psi6_eq_length d, psi_succ 5 d, clmoModel_nodup⟩
+
+/-- the integer loop of `_combinations` (`res = res*(n-i+1)//i`) computes the binomial coefficient exactly -/
+theorem combinations_exact (n k : Nat) : comb n k = Nat.choose n k := comb_eq_choose n k
+
+/-- `psi[i, d] = C(d+i-1, i-1)` for `i ≥ 1` -/
+theorem psi_is_binomial (i d : Nat) : psi (i + 1) d = Nat.choose (d + i) i := psi_succ i d
+
+/-- **unpack ∘ pack = id** for exponents ≤ 63 (`k[0]` is recovered from the true degree) -/
+theorem unpack_pack (k : List Nat) (hl : k.length = 6) (hb : ∀ x ∈ k.tail, x ≤ 63) : decodePacked k.sum (pack k) = k :=
+  decodePacked_pack hl hb
+
+/-- … and the bound is sharp: the 6-bit mask drops exponent 64 -/
+theorem pack_not_injective_above_63 : pack [0, 64, 0, 0, 0, 0] = pack [64, 0, 0, 0, 0, 0] ∧ pack [0, 64, 0, 0, 0, 0] = 0 := by
+  decide
+
+/-- **decode ∘ encode = id**: every multi-index of degree `d ≤ D ≤ 63` has a slot `< psi[6,d]`, `encode` returns it
+and `decode` of that slot is the multi-index -/
+theorem decode_encode {D d : Nat} (hD : D ≤ 63) (hd : d ≤ D) (k : List Nat) (hl : k.length = 6) (hs : k.sum = d) :
+    ∃ i, i < psi 6 d ∧ encode (mkTables D) k d = some i ∧ decode (mkTables D) i d = k :=
+  encode_of_degree hD hd hl hs
+
+/-- **encode ∘ decode = id**: every slot decodes to a multi-index of the right degree which encodes back to the slot -/
+theorem encode_decode {D d i : Nat} (hD : D ≤ 63) (hd : d ≤ D) (hi : i < psi 6 d) :
+    (decode (mkTables D) i d).length = 6 ∧ (decode (mkTables D) i d).sum = d ∧
+    encode (mkTables D) (decode (mkTables D) i d) d = some i := by
+  refine ⟨length_decode _ _ _, sum_decode hD hd hi, ?_⟩
+  rw [decode_table hD hd (psi_lt_enum hi)]
+  exact encode_table hD hd (psi_lt_enum hi)
+
+/-- different slots hold different monomials -/
+theorem slots_distinct {D d i j : Nat} (hD : D ≤ 63) (hd : d ≤ D) (hi : i < psi 6 d) (hj : j < psi 6 d)
+    (h : decode (mkTables D) i d = decode (mkTables D) j d) : i = j :=
+  decode_injective hD hd hi hj (by rw [h])
+
+/-- `encode` answers `-1` exactly when the five stored exponents alone exceed the degree argument … -/
+theorem encode_none_iff_overflow {D d : Nat} (hD : D ≤ 63) (hd : d ≤ D) (k : List Nat) (hl : k.length = 6)
+    (hb : ∀ x ∈ k.tail, x ≤ 63) : encode (mkTables D) k d = none ↔ d < k.tail.sum :=
+  encode_none_iff hD hd hl hb
+
+/-- … or the degree argument is outside the table -/
+theorem encode_none_outside_table {D d : Nat} (h : D < d) (k : List Nat) : encode (mkTables D) k d = none :=
+  encode_degree_out_of_range h k
+
+/-- `encode` never looks at `k[0]`: whatever slot it returns is the slot of `(degree − Σ k[1..5]) :: k[1..5]`.  So the
+slot is the right one iff the degree argument is the true total degree — the precondition every kernel respects. -/
+theorem encode_ignores_k0 {D d : Nat} (hD : D ≤ 63) (hd : d ≤ D) (k : List Nat) (hl : k.length = 6)
+    (hb : ∀ x ∈ k.tail, x ≤ 63) {i : Nat} (h : encode (mkTables D) k d = some i) :
+    i < psi 6 d ∧ decode (mkTables D) i d = (d - k.tail.sum) :: k.tail :=
+  encode_some_decode hD hd hl hb h
+
+/-- explicit witness: with an inconsistent degree argument `encode` returns a slot of another monomial (`x₀⁵` asked at
+degree 2 lands on the slot of `x₀²`) -/
+theorem encode_wrong_slot_with_inconsistent_degree :
+    encode (mkTables 4) [5, 0, 0, 0, 0, 0] 2 = some 0 ∧ decode (mkTables 4) 0 2 = [2, 0, 0, 0, 0, 0] := by decide +kernel
+
+/-! ## 2. the kernels return the coefficients of the mathematically defined result, for every schedule -/
+
+section semiring
+variable {K : Type} [CommSemiring K] [DecidableEq K]
+
+/-- slot `i` of a block is the coefficient of the monomial `decode i` in the polynomial the block stands for; hence a
+block is determined by its polynomial -/
+theorem block_semantics {D d : Nat} (hD : D ≤ 63) (hd : d ≤ D) (p : List K) (hp : p.length = psi 6 d) :
+    (∀ i, i < psi 6 d → coeff (mono (decode (mkTables D) i d)) (toMv (mkTables D) d p) = p.getD i 0) ∧
+    (∀ q : List K, q.length = psi 6 d → toMv (mkTables D) d p = toMv (mkTables D) d q → p = q) :=
+  ⟨fun _ hi => coeff_toMv hD hd p hp hi, fun q hq h => toMv_injective hD hd p q hp hq h⟩
+
+/-- `_poly_add` -/
+theorem add_spec (clmo : List (List Nat)) (d : Nat) (p q : List K) (h : p.length = q.length) :
+    toMv clmo d (polyAdd p q) = toMv clmo d p + toMv clmo d q ∧ (polyAdd p q).length = p.length := by
+  refine ⟨toMv_polyAdd clmo d p q h, ?_⟩
+  rw [length_polyAdd, ← h, Nat.min_self]
+
+/-- `_poly_scale` -/
+theorem scale_spec (clmo : List (List Nat)) (d : Nat) (a : K) (p : List K) :
+    toMv clmo d (polyScale a p) = C a * toMv clmo d p := by
+  unfold toMv polyScale
+  rw [List.length_map, Finset.mul_sum]
+  apply Finset.sum_congr rfl
+  intro i hi
+  have hi' : i < p.length := Finset.mem_range.mp hi
+  rw [List.getD_eq_getElem _ _ (by rw [List.length_map]; exact hi'), List.getElem_map, List.getD_eq_getElem _ _ hi',
+    C_mul_monomial]
+
+/-- **mul_spec** + **mul_any_schedule** (polynomial form): for *every* valid schedule of the `prange` of `_poly_mul` —
+any assignment of outer iterations to threads, any order inside a thread, rows reduced afterwards — the returned block
+has `psi[6, dp+dq]` slots and stands for the product of the two polynomials. -/
+theorem mul_spec {D dp dq : Nat} (hD : D ≤ 63) (hd : dp + dq ≤ D) (p q : List K) (hp : p.length = psi 6 dp)
+    (hq : q.length = psi 6 dq) (sched : List (List Nat)) (hs : sched.flatten.Perm (List.range p.length)) :
+    (polyMulSched (mkTables D) p dp q dq sched).length = psi 6 (dp + dq) ∧
+    toMv (mkTables D) (dp + dq) (polyMulSched (mkTables D) p dp q dq sched)
+      = toMv (mkTables D) dp p * toMv (mkTables D) dq q :=
+  ⟨length_polyMulSched _ _ _ _ _ _, toMv_polyMulSched hD hd p q hp hq sched hs⟩
+
+/-- **mul_spec**, coefficient form: slot `i` of the product block is the convolution
+`Σ_{a+b = decode i} coeff_a(P) · coeff_b(Q)` -/
+theorem mul_coeff_spec {D dp dq : Nat} (hD : D ≤ 63) (hd : dp + dq ≤ D) (p q : List K) (hp : p.length = psi 6 dp)
+    (hq : q.length = psi 6 dq) (sched : List (List Nat)) (hs : sched.flatten.Perm (List.range p.length))
+    (i : Nat) (hi : i < psi 6 (dp + dq)) :
+    (polyMulSched (mkTables D) p dp q dq sched).getD i 0
+      = ∑ x ∈ Finset.antidiagonal (mono (decode (mkTables D) i (dp + dq))),
+          coeff x.1 (toMv (mkTables D) dp p) * coeff x.2 (toMv (mkTables D) dq q) := by
+  rw [← coeff_toMv hD hd _ (length_polyMulSched _ _ _ _ _ _) hi, toMv_polyMulSched hD hd p q hp hq sched hs, coeff_mul]
+
+/-- **mul_any_schedule** (array form): two valid schedules give the *same array*, slot by slot; in particular every
+multi-threaded run equals the single-threaded `polyMul`. -/
+theorem mul_any_schedule {D dp dq : Nat} (hD : D ≤ 63) (hd : dp + dq ≤ D) (p q : List K) (hp : p.length = psi 6 dp)
+    (hq : q.length = psi 6 dq) (s₁ s₂ : List (List Nat)) (h₁ : s₁.flatten.Perm (List.range p.length))
+    (h₂ : s₂.flatten.Perm (List.range p.length)) :
+    polyMulSched (mkTables D) p dp q dq s₁ = polyMulSched (mkTables D) p dp q dq s₂ ∧
+    polyMulSched (mkTables D) p dp q dq s₁ = polyMul (mkTables D) p dp q dq := by
+  have key : ∀ s s' : List (List Nat), s.flatten.Perm (List.range p.length) → s'.flatten.Perm (List.range p.length) →
+      polyMulSched (mkTables D) p dp q dq s = polyMulSched (mkTables D) p dp q dq s' := by
+    intro s s' hs hs'
+    apply toMv_injective hD hd _ _ (length_polyMulSched _ _ _ _ _ _) (length_polyMulSched _ _ _ _ _ _)
+    rw [toMv_polyMulSched hD hd p q hp hq s hs, toMv_polyMulSched hD hd p q hp hq s' hs']
+  exact ⟨key s₁ s₂ h₁ h₂, key s₁ _ h₁ (by simp)⟩
+
+/-- **diff_spec** + schedule independence (polynomial form): `_poly_diff` returns the block of `∂P/∂x_v`
+(`psi[6, d-1]` slots; the degree-0 case returns the zero constant block) for every valid schedule -/
+theorem diff_spec {D d : Nat} (hD : D ≤ 63) (hd : d ≤ D) (p : List K) (hp : p.length = psi 6 d) (v : Fin 6)
+    (sched : List (List Nat)) (hs : sched.flatten.Perm (List.range p.length)) :
+    (polyDiffSched (mkTables D) p v.val d sched).length = psi 6 (d - 1) ∧
+    toMv (mkTables D) (d - 1) (polyDiffSched (mkTables D) p v.val d sched) = pderiv v (toMv (mkTables D) d p) :=
+  ⟨length_polyDiffSched _ _ _ _ _, toMv_polyDiffSched hD hd p hp v sched hs⟩
+
+/-- **diff_any_schedule** (array form) -/
+theorem diff_any_schedule {D d : Nat} (hD : D ≤ 63) (hd : d ≤ D) (p : List K) (hp : p.length = psi 6 d) (v : Fin 6)
+    (s₁ s₂ : List (List Nat)) (h₁ : s₁.flatten.Perm (List.range p.length)) (h₂ : s₂.flatten.Perm (List.range p.length)) :
+    polyDiffSched (mkTables D) p v.val d s₁ = polyDiffSched (mkTables D) p v.val d s₂ ∧
+    polyDiffSched (mkTables D) p v.val d s₁ = polyDiff (mkTables D) p v.val d := by
+  have key : ∀ s s' : List (List Nat), s.flatten.Perm (List.range p.length) → s'.flatten.Perm (List.range p.length) →
+      polyDiffSched (mkTables D) p v.val d s = polyDiffSched (mkTables D) p v.val d s' := by
+    intro s s' hs hs'
+    apply toMv_injective hD (by omega : d - 1 ≤ D) _ _ (length_polyDiffSched _ _ _ _ _) (length_polyDiffSched _ _ _ _ _)
+    rw [toMv_polyDiffSched hD hd p hp v s hs, toMv_polyDiffSched hD hd p hp v s' hs']
+  exact ⟨key s₁ s₂ h₁ h₂, key s₁ _ h₁ (by simp)⟩
+
+/-- **evaluate_spec**: `_poly_evaluate` (power table + term products + running sum) is the value of the polynomial -/
+theorem evaluate_spec {D d : Nat} (hD : D ≤ 63) (hd : d ≤ D) (p : List K) (hp : p.length = psi 6 d) (pt : List K)
+    (hpt : pt.length = 6) :
+    polyEvaluate (mkTables D) p d pt = eval (fun i : Fin 6 => pt.getD i.val 0) (toMv (mkTables D) d p) :=
+  polyEvaluate_eq_eval hD hd p hp pt hpt
+
+end semiring
+
+section ring
+variable {K : Type} [CommRing K] [DecidableEq K]
+
+/-- **poisson_spec**: `_poly_poisson` returns the block (degree `dp+dq-2`) of
+`{P,Q} = Σ_{m<3} ∂P/∂q_m ∂Q/∂p_m − ∂P/∂p_m ∂Q/∂q_m` for every scheduler `σ` of the nested parallel kernels
+(`σ n` = schedule used for a `prange` of `n` iterations); when `dp = 0` or `dq = 0` the code returns the one-slot zero
+block, which is the bracket with a constant; otherwise the block has `psi[6, dp+dq-2]` slots. -/
+theorem poisson_spec {D dp dq : Nat} (hD : D ≤ 63) (hd : dp + dq ≤ D) (p q : List K)
+    (hp : p.length = psi 6 dp) (hq : q.length = psi 6 dq) (σ : Nat → List (List Nat))
+    (hσ : ∀ n, (σ n).flatten.Perm (List.range n)) :
+    toMv (mkTables D) (dp + dq - 2) (polyPoisson (mkTables D) σ p dp q dq)
+      = bracket (toMv (mkTables D) dp p) (toMv (mkTables D) dq q) ∧
+    ((dp = 0 ∨ dq = 0) → polyPoisson (mkTables D) σ p dp q dq = zeros (psi 6 0)) ∧
+    (1 ≤ dp → 1 ≤ dq → (polyPoisson (mkTables D) σ p dp q dq).length = psi 6 (dp + dq - 2)) := by
+  refine ⟨toMv_polyPoisson hD hd p q hp hq σ hσ, ?_, fun h1 h2 => length_polyPoisson hD hd h1 h2 p q hp hq σ hσ⟩
+  intro h; unfold polyPoisson; rw [if_pos h]
+
+end ring
+
+section field
+variable {K : Type} [Field K] [CharZero K] [DecidableEq K]
+
+/-- **integrate_spec**: `_poly_integrate` returns a block of degree `d+1` whose partial derivative in `x_v` is the input
+(right inverse of `diff` on that variable) -/
+theorem integrate_spec {D d : Nat} (hD : D ≤ 63) (hd : d + 1 ≤ D) (p : List K) (hp : p.length = psi 6 d) (v : Fin 6) :
+    (polyIntegrate (mkTables D) p v.val d).length = psi 6 (d + 1) ∧
+    pderiv v (toMv (mkTables D) (d + 1) (polyIntegrate (mkTables D) p v.val d)) = toMv (mkTables D) d p :=
+  ⟨length_polyIntegrate _ _ _ _, pderiv_toMv_polyIntegrate hD hd p hp v⟩
+
+end field
+
+/-! ## 3. non-vacuity: the hypotheses are satisfiable by concrete non-trivial data, and the model computes -/
+
+/-- a valid 2-thread schedule of a 6-iteration `prange` (interleaved, second thread backwards) -/
+example : ([[0, 2, 4], [5, 3, 1]] : List (List Nat)).flatten.Perm (List.range 6) := by decide
+
+/-- `(x₀ + 2x₁)(3x₀ − x₃)` under that schedule: `3x₀² + 6x₀x₁ − x₀x₃ − 2x₁x₃`, and the block length is `psi[6,2] = 21` -/
+example : polyMulSched (K := Int) (mkTables 2) [1, 2, 0, 0, 0, 0] 1 [3, 0, 0, -1, 0, 0] 1 [[0, 2, 4], [5, 3, 1]]
+    = [3, 6, 0, -1, 0, 0, 0, 0, -2, 0, 0, 0, 0, 0, 0, 0, 0, 0, 0, 0, 0] := by decide +kernel
+
+example : ([1, 2, 0, 0, 0, 0] : List Int).length = psi 6 1 ∧ (2 : Nat) ≤ 63 ∧ 1 + 1 ≤ 2 := by decide
+
+/-- ∂/∂x₀ of `3x₀² + 6x₀x₁` is `6x₀ + 6x₁`; `{x₀, x₃} = 1` -/
+example : polyDiff (K := Int) (mkTables 2) [3, 6, 0, 0, 0, 0, 0, 0, 0, 0, 0, 0, 0, 0, 0, 0, 0, 0, 0, 0, 0] 0 2 = [6, 6, 0, 0, 0, 0] := by
+  decide +kernel
+
+example : polyPoisson (K := Int) (mkTables 2) (fun n => [List.range n]) [1, 0, 0, 0, 0, 0] 1 [0, 0, 0, 1, 0, 0] 1 = [1] := by
+  decide +kernel
 
 end HitenModel.C06
